@@ -309,9 +309,16 @@ package core
 // A call to Node.runJob IS the job-start event (its body, which talks to the
 // job manager, is not verified here).
 
-//@ func core.Node.runJob property C03
-//@   trusted
+// (the call is the job-start event; what is verified of the body: the environment shared by the
+// whole pipestance is never written - a job that needs its own TMPDIR gets a copy - since a
+// job queued behind --maxjobs reads its environment only when its script is finally built)
+//@ iface core.JobManager.execJob property C18 C03
+//@   modifies key(ALLOC)
+//@ func core.Node.runJob property C03 C18
 //@   effect runs metadata
+//@   requires self != nil && self.top != nil && self.top.rt != nil && self.top.rt.Config != nil && metadata != nil && self.stagecode != nil
+//@   ensures @sharedenv forall k string :: has(self.top.envs, k) == old(has(self.top.envs, k)) && self.top.envs[k] == old(self.top.envs[k])
+//@   loop 1 invariant envs != nil && fresh(envs) && forall k string :: has(self.top.envs, k) == old(has(self.top.envs, k)) && self.top.envs[k] == old(self.top.envs[k])
 
 //@ callers core.Node.runJob property C03 : core.Node.runSplit, core.Node.runJoin, core.Node.runChunk
 //@ callers core.Node.runChunk property C03 C02 : core.Chunk.step
